@@ -87,6 +87,11 @@ def setup():
     sys.stdout.write(err[-2000:])
     if rc != 0:
         return 1
+    # second lane of every native monitor: optimized, debug_assertions off, dimension checking kept on
+    rc, out, err = C.cargo_build(C.HARNESS, os.path.join(C.BUILD, "harness-relchk"), ["--bins", "--release", "--features", "dim_release"], rustflags="--cfg rrtk_verif")
+    sys.stdout.write(err[-2000:])
+    if rc != 0:
+        return 1
     try:
         C.build_monitor("c17_conc", hooks=False)
         mt = os.path.join(C.BUILD, "miri")
@@ -199,9 +204,10 @@ PROPS = {
                      "in update-extreme (any finite triple) a non-finite result where the true result is representable is a violation; the overflow of intermediates when some term exceeds 1e37 is a listed known finding"],
     ),
     "C15": dict(
-        quick_scale=10, thorough_scale=40, run=native_both_profiles, level=EXPL, technique="model-based random operation sequences against an exact executable model; scripted recording history; fault-injecting getters, clocks and settable; panic capture",
+        quick_scale=10, thorough_scale=16, run=native_both_profiles, level=EXPL, technique="model-based random operation sequences against an exact executable model; scripted recording history; fault-injecting getters, clocks and settable; panic capture",
         rule="three sub-checks: seq (operation sequences <=40 over a recording settable with scripted accept/reject, two scripted getters, a ConstantGetter that is settable/following/followable, four clock kinds), hist (GetterFromHistory over a scripted history recording every queried time, four constructors by quota, three clock kinds, <=40 ops from {get, clock advance/jump/error, set_delta, set_time, update with scripted errors}), adapters (Time as TimeGetter, NoneGetter, TimeGetterFromGetter, ConstantGetter); after every operation result, get_last_request, the impl_set log, get() and the history's query log are compared exactly with the model; distinct = (previous op, op, following state, followed-getter category) / (constructor, clock kind, op bigram, offset class) / event bigrams",
-        assumptions=["in hist all clock values, starts, deltas and set_time targets satisfy |x| <= 2^60 so nothing overflows",
+        assumptions=["in hist clock values, starts, deltas and set_time targets range over the whole of i64, each partner quantity being constructed so that now+delta, start-now, t-now and -now stay inside i64 (clock readings > i64::MIN): nothing overflows",
+                     "a read-once followed getter or clock (first poll differs from later polls) is decided by its FIRST read; poll counts are not asserted",
                      "a settable whose update() does not call update_following_data forwards nothing on update()",
                      "when the history's own update fails only 'history called once, first' is required (statement silent on the time getter then)"],
     ),
